@@ -26,7 +26,7 @@ def run(ctx):
         cs = [c for c in cs if "world" not in c["prog"] and "check" not in c]
         cs.sort(key=lambda c: c["id"])
         # families about what a back-end keeps per loop / per call are taken whole
-        must = ("/outerjump/", "/loopcall/", "/range2/nested", "/multicall/", "/tuple/")
+        must = ("/outerjump/", "/loopcall/", "/range2/nested", "/multicall/", "/tuple/", "/grow/string/L1/", "/grow/bool/L2/", "/grow/int/L0/", "/copy/", "/punct/", "/jumpsite/", "/reeval/")
         cases += [c for i, c in enumerate(cs) if i % stride == 0 or any(m in c["id"] for m in must)]
     # label allocation: nesting/sequencing shapes, many functions (spec/FamC16.tla), builtins that cannot run are dropped as unsupported
     shapes = ctx.tlc_family("FamC16", constants={"Tier": '"quick"'})
@@ -68,4 +68,5 @@ def run(ctx):
             ctx.samples.append({"id": c["id"], "source": c["src"], "reference_stdout": v["out"], "cmd_model_stdout": r["out"], "bash_stdout": c["obs"]["out"]})
         if c["id"] in expects and r["st"] == "exit" and r["out"].strip() == expects[c["id"]].strip() and r["ok"]:
             ctx.notes["cmd_model_calibrated_on_repo_tests"] = ctx.notes.get("cmd_model_calibrated_on_repo_tests", 0) + 1
+    batflow.check_blind(ctx, len(keep))
     return ctx.finish(rule=RULE, assumptions=ASSUME, extra={"agree_with_bash": agree_bash, "notes": ctx.notes})
